@@ -226,3 +226,29 @@ def _(model, objective, o_penal, VPHASEERR, coverage):
     cut_after("aldy.lpinterface.CBC.setObjective")
     lp_setobjective(model, objective + o_penal + coverage.profile.minor_phase * (0.0 + sum(e for e in VPHASEERR)))
     modifies(model)
+
+
+@contract("aldy.minor.solve_minor_model@selectors", native=False)
+def _(model, alleles):
+    types(model="CBC", alleles="Dict[Tuple[AlleleId, int], Set[Mutation]]")
+    returns("Dict[Tuple[AlleleId, int], LinVar]")
+    # one binary selector per candidate copy
+    for a in alleles:
+        newvar(model, "B", None, None, f"A_{a[0].major}_{a[0].minor}_{a[1]}")
+    ensures(forall(lambda a="Tuple[AlleleId, int]": (a in result) == (a in alleles)), label="one-selector-per-candidate-copy")
+    modifies(model)
+
+
+@contract("aldy.minor.solve_minor_model@keepable", native=False)
+def _(model, alleles):
+    types(model="CBC", alleles="Dict[Tuple[AlleleId, int], Set[Mutation]]")
+    returns("Dict[Tuple[AlleleId, int], Dict[Mutation, Tuple[LinVar, LinVar]]]")
+    # a 'keep' selector (and its product with the candidate's selector) exists exactly for the variants the candidate defines
+    for a in alleles:
+        for m in alleles[a]:
+            newvar(model, "B", None, None, f"K_{m.pos}_{m.op}_{a[0].major}_{a[0].minor}_{a[1]}")
+            newvar(model, "B", None, None, f"MUL_K_{m.pos}_{m.op}_{a[0].major}_{a[0].minor}_{a[1]}")
+    ensures(forall(lambda a="Tuple[AlleleId, int]": (a in result) == (a in alleles)), label="one-table-per-candidate")
+    ensures(forall(lambda a="Tuple[AlleleId, int]", m=Mutation: implies(a in alleles, (m in result[a]) == (m in alleles[a]))),
+            label="keepable-iff-defined")
+    modifies(model)
